@@ -340,8 +340,36 @@ def independence_bounded(p):
                         if _trajectory(runs[tag], where[tag][k]) != _trajectory(runs["alone"], k):
                             failures.append(dict(what=f"{layout} layout, island scenario: the trajectory of a particle differs when other rows (particles leaving the grid) are listed {tag} it", particle=k))
                             break
-        samples.append(dict(scenario="4 particles, 2 release times, depth-dependent sheared current, scalar forcing, RK4", checks="repeat, drop/swap/add rows, neighbour killed, time shift; island + outflow in both layouts"))
-    return dict(cases=cases, failures=failures[:10], samples=samples, bound="one scenario family: 4 rows, 2 h, 3 row edits, kill x 2 schemes, 1 time shift; island/outflow scenario x 2 layouts x 4 row arrangements")
+        # the same with a depth-dependent current, particles at different depths and RK4: dead or inactive entries that
+        # stay in the arrays (dense layout) in front of living particles must not shift the level data the others use
+        shr = d / "outflow_shear"
+        shr.mkdir()
+        write_forcing(shr, sign=1.0, shear=True)
+        mine2 = [(iso(0), 4.3, 8.6, 5.0), (iso(0), 5.2, 3.6, 30.0), (iso(0), 3.25, 5.75, 50.0)]
+        drift2 = [(iso(0), 12.2, 2.0 + 0.9 * k, 3.0 + 6.0 * k) for k in range(6)]
+        for layout in ("sparse", "dense"):
+            runs = {}
+            for tag, rws in (("before", drift2 + mine2), ("alone", mine2), ("mixed", drift2[:2] + mine2[:1] + drift2[2:4] + mine2[1:] + drift2[4:])):
+                sub = shr / f"{layout}_{tag}"
+                sub.mkdir()
+                cfg = base_config(shr, release_rows=rws, out=f"{sub.name}/out.nc", period=DT, advection="RK4", layout=layout, extra=False)
+                try:
+                    run(cfg)
+                    runs[tag] = read_records([sub / "out.nc"])
+                except BaseException as e:  # noqa: BLE001
+                    failures.append(dict(what=f"sheared outflow scenario ({layout}, {tag}) raised {type(e).__name__}: {str(e)[:100]}"))
+            cases += 1
+            where = dict(before=[6, 7, 8], alone=[0, 1, 2], mixed=[2, 5, 6])
+            if "alone" in runs:
+                for tag in ("before", "mixed"):
+                    if tag not in runs:
+                        continue
+                    for k in range(3):
+                        if _trajectory(runs[tag], where[tag][k]) != _trajectory(runs["alone"], k):
+                            failures.append(dict(what=f"{layout} layout, sheared current, RK4: the trajectory of a particle differs when particles that leave the grid are listed {tag} it", particle=k))
+                            break
+        samples.append(dict(scenario="4 particles, 2 release times, depth-dependent sheared current, scalar forcing, RK4", checks="repeat, drop/swap/add rows, neighbour killed, time shift; island + outflow in both layouts; sheared outflow with particles at different depths"))
+    return dict(cases=cases, failures=failures[:10], samples=samples, bound="one scenario family: 4 rows, 2 h, 3 row edits, kill x 2 schemes, 1 time shift; island/outflow scenario x 2 layouts x 4 row arrangements; sheared outflow x 2 layouts x 3 arrangements")
 
 
 def protocol_bounded(p):
